@@ -36,6 +36,20 @@ CLAIMS = {
                 'Language preservation and size monotonicity as such are not decided.',
         'note': 'trusted: clang 14 AST/CFG, exporter',
     },
+    'C06': {
+        'text': 'Decides structural necessary conditions of the top-down complementation (ExplicitDownwardComplementation::Compute and its helpers), each of which, when broken, makes some tree over the alphabet '
+                'accepted by both or by neither of A and Complement(A): the per-macro-state symbol loop ranges over a container filled unconditionally from the alphabet dictionary (GetSymbolDict of the '
+                'alphabet parameter), with the rank of every symbol recorded at the position stored with it; the first macro-state is built from all final states of the operand and the one accepting state of the '
+                'result is its number; rules are emitted for exactly the cases (no rule, rank 0), (no rule, rank > 0: children = the empty macro-state) and (rules, rank > 0: one per choice function) and never for '
+                '(rules, rank 0); the choice functions range over (collected rules) x (rank) and ChoiceFunction::next is an odometer that stops only past the last counter; a child taken from position c goes to '
+                'post[c] and position i of the new rule comes from post[i]; per-symbol scratch containers are emptied per iteration and a position macro-state is cleared after its harvest; rank vector and rule '
+                'index are subscripted with the dense symbol index, rules are emitted under the symbol and the number of the dequeued macro-state; topDownIndex files every rule under [parent][dense symbol index]; '
+                'ComplementWithPreorder complements *this over its own alphabet into the automaton it returns (COMPL). Also the clauses shared with other properties on this code: contains/refine index orientation of the '
+                'position antichains (ACDUAL), first-visit macro-states are enqueued (WORKLIST), index lengths compared relationally (SYMIDX), post[0] exists for alphabets of constants (SIZEDINDEX), the result carries '
+                'the operand\'s alphabet (ALPHASRC), and the trimming pass applied to the raw result (COUNTGUARD, KEPTRULES, DRAIN, ACCRET, COLLECTALL on RemoveUselessStates/RemoveUnreachableStates). '
+                'Exactness of the construction as such is not decided.',
+        'note': 'trusted: clang 14 AST/CFG, exporter; COMPL is written for this one function family and names its entities (Compute, ChoiceFunction::next, topDownIndex, ComplementWithPreorder) as anchors',
+    },
     'C07': {
         'text': 'Decides, for both BDD encodings, the dispatch clauses (3 + 4 cases, delegation of the bottom-up downward variant with an equivalent InclParam on '
                 'sanitised operands and a simulation computed on their union, default throws => unimplemented selections raise an exception) and comparator duality of '
@@ -130,7 +144,6 @@ CLAIMS = {
 }
 
 NOT_APPLICABLE = {
-    'C06': 'exactness of a determinisation-style construction has no structural necessary condition a static rule in reach can decide (DESIGN.md section 4)',
 }
 for _p in ['C01', 'C02', 'C03', 'C04', 'C05', 'C07', 'C08', 'C09', 'C10', 'C11', 'C12', 'C13', 'C14', 'C15', 'C17', 'C18', 'C19']:
     NOT_APPLICABLE.setdefault(_p, NOT_YET)
